@@ -102,7 +102,12 @@ impl NaiveDate {
     { unimplemented!() }
     #[verifier::external_body]
     pub fn to_string(&self) -> String { unimplemented!() }
+    /// A-ext: date text parsing
+    #[verifier::external_body]
+    pub fn parse_from_str(s: &str, fmt: &str) -> (r: Result<NaiveDate, ParseError>) { unimplemented!() }
 }
+#[verifier::external_body]
+pub struct ParseError { _p: u8 }
 pub uninterp spec fn iso_year_of(d: int) -> int;
 #[verifier::external_body]
 pub struct IsoWeek { _p: u8 }
